@@ -136,6 +136,35 @@ def match_twice(rule_path: str, input_path: str, *, binary=False, ret="list", se
         return ("exc", type(exc).__name__, str(exc)[:300])
 
 
+def build(rule_path: str, input_path: str, *, binary=False, ret="bool", search="first", only_addr=False, macros=None):
+    """Construct a matcher without running it. Returns ("ok", mop) or ("exc", ...)."""
+    try:
+        cfg = gd.MatchConfig(
+            pattern_pathstr=rule_path, input_file=input_path,
+            input_file_type=gd.InputFileType.binary if binary else gd.InputFileType.assembly,
+            return_only_address=only_addr, return_mode=getattr(gd.MatchingReturnMode, RETURN[ret]),
+            matching_mode=getattr(gd.MatchingSearchMode, SEARCH[search]), macros=macros)
+        return ("ok", jm.MasterOfPuppets(cfg))
+    except BaseException as exc:  # noqa: BLE001
+        if isinstance(exc, (KeyboardInterrupt, SystemExit, MemoryError)):
+            raise
+        return ("exc", type(exc).__name__, str(exc)[:300])
+
+
+def run(built):
+    """perform_matching() on a matcher made by build(). Same result shape as match()."""
+    if built[0] != "ok":
+        return built
+    try:
+        mop = built[1]
+        v = mop.perform_matching()
+        return ("ok", list(v) if isinstance(v, list) else v, mop.regex_rule)
+    except BaseException as exc:  # noqa: BLE001
+        if isinstance(exc, (KeyboardInterrupt, SystemExit, MemoryError)):
+            raise
+        return ("exc", type(exc).__name__, str(exc)[:300])
+
+
 def match_sequence(rule_path: str, inputs: List[str], *, binary=False, ret="list", search="all", only_addr=False, macros=None):
     """ONE MasterOfPuppets object used on several inputs in turn (match_config.input_file is re-pointed between the calls).
     Returns ("ok", [result per input]) or ("exc", ...)."""
